@@ -159,10 +159,10 @@ reg(PropertySpec(
                "samplers.base:Sampler.default_file_checkpoint_callback", f"{SMC}:SMCSampler.sample"],
     native=_lazy("checks.native_ckpt", "native_C11"),
     extra_static=_lazy1("checks.static_facts", "c12_names"),
-    technique="contract-based deductive verification (relational): the real build_checkpoint_state is executed symbolically on an arbitrary sampler state, its payload is passed through each route (dict, pickled bytes, HDF5 file path) into the real restore_from_checkpoint, and every loop-carried variable of SMCSampler.sample (computed from the ast) is proved equal before/after; payload history must not alias live lists; resumed-path loop invariants of SMCSampler.sample (z3); bounded native fault injection with bit comparison",
+    technique="contract-based deductive verification (relational): the real build_checkpoint_state is executed symbolically on an arbitrary sampler state, its payload is passed through each route (dict, pickled bytes, HDF5 file path) into the real restore_from_checkpoint, and every loop-carried variable of SMCSampler.sample (computed from the ast) is proved equal before/after; payload history must not alias live lists; resumed-path loop invariants of SMCSampler.sample (z3); frame clauses: restore_from_checkpoint leaves everything the caller configured untouched, and the run state of sample() (attributes carried from one iteration to a later one, computed from the ast for each kernel class) is contained in the payload; the resume-from-file route: the real reader _build_aspire_from_file on a file written by the real codec returns the stored blob / size / sampler type / flow, and resume_from_file primes exactly those; bounded native fault injection with bit comparison",
     assumptions=["pickle.loads(pickle.dumps(v)) and copy.deepcopy(v) are structurally equal copies", "A-KERNEL: the kernel is a deterministic function of its arguments and the generator state, so equality of the loop-carried state at the loop head gives equal futures",
                  "same sampling arguments and random sources are supplied on resume (as the property states)"],
-    miss=["the resume_from_file route is covered by the bounded stand-in and by C13's configuration round trip", "kernel-internal state of third-party packages"],
+    miss=["kernel-internal state of third-party packages"],
 ))
 
 reg(PropertySpec(
@@ -179,7 +179,7 @@ reg(PropertySpec(
     functions=["aspire:Aspire.fit", "aspire:Aspire.sample_posterior", "aspire:Aspire.auto_checkpoint", f"{SMC}:SMCSampler.build_checkpoint_state"],
     native=_lazy("checks.native_ckpt", "native_C14"),
     extra_static=_lazy1("checks.static_facts", "c12_names"),
-    technique="contract-based deductive verification: file/instance invariant J (stored flow is the instance's current flow; a stored checkpoint was weighted under the stored flow; the stored configuration names the sampler class that wrote the checkpoint) with ghost flow versions over an HDF5 group model; preservation by the real Aspire.fit and Aspire.sample_posterior for every argument / pre-state shape gives all operation sequences by induction (z3); bounded native enumeration of operation sequences on real files",
+    technique="contract-based deductive verification: file/instance invariant J (stored flow is the instance's current flow; a stored checkpoint was weighted under the stored flow; the stored configuration names the sampler class that wrote the checkpoint) with ghost flow versions over an HDF5 group model; preservation by the real Aspire.fit and Aspire.sample_posterior for every argument / pre-state shape (instances that have sampled, have not, or were rebuilt from the file) gives all operation sequences by induction (z3); the real config_dict / save_config / _build_aspire_from_file / resume_from_file carry the sampler type through a rewrite of the configuration; a finished SMCSampler.sample leaves its own forced checkpoint; bounded native enumeration of operation sequences on real files",
     assumptions=["every Flow.fit produces a new proposal (ghost version)", "the sampler writes its checkpoint under checkpoint/state with prior_flow = the instance's flow (contract of the sampler entry points)",
                  "auto_checkpoint and resume_from_file do not write to the file"],
 ))
@@ -243,11 +243,11 @@ _EXTRA = {
     "C05": ["samplers.mcmc:Emcee.sample", "samplers.mcmc:MiniPCN.sample", "samplers.smc.base:SMCSampler.sample"],
     "C08": ["aspire:Aspire.sample_posterior"],
     "C10": ["samplers.mcmc:Emcee.sample", "samplers.mcmc:MiniPCN.sample", "samples:BaseSamples.from_dict", "utils:PoolHandler.__exit__"],
-    "C11": ["samples:BaseSamples.from_samples", "aspire:Aspire.resume_from_file"],
-    "C12": ["samplers.smc.base:SMCSampler.build_checkpoint_state", "aspire:Aspire.resume_from_file"],
-    "C14": ["aspire:Aspire.resume_from_file", "samplers.smc.base:SMCSampler.sample", "aspire:Aspire.config_dict", "aspire:Aspire.save_config"],
-    "C13": ["samples:BaseSamples.__setstate__", "transforms:CompositeTransform.__init__", "samples:Samples.to_numpy", "samples:SMCSamples.to_numpy", "aspire:Aspire.config_dict", "aspire:Aspire.save_config"],
-    "C15": ["flows.jax.flows:FlowJax.save", "flows.torch.flows:BaseTorchFlow.save", "samples:BaseSamples.from_dict", "samples:Samples.rejection_sample",
+    "C11": ["samples:BaseSamples.from_samples", "aspire:Aspire.resume_from_file", "aspire:Aspire._build_aspire_from_file"],
+    "C12": ["samplers.smc.base:SMCSampler.build_checkpoint_state", "aspire:Aspire.resume_from_file", "aspire:Aspire._build_aspire_from_file"],
+    "C14": ["aspire:Aspire.resume_from_file", "aspire:Aspire._build_aspire_from_file", "samplers.smc.base:SMCSampler.sample", "aspire:Aspire.config_dict", "aspire:Aspire.save_config"],
+    "C13": ["samples:BaseSamples.__setstate__", "transforms:CompositeTransform.__init__", "samples:Samples.to_numpy", "samples:SMCSamples.to_numpy", "aspire:Aspire.config_dict", "aspire:Aspire.save_config", "aspire:Aspire._build_aspire_from_file"],
+    "C15": ["aspire:Aspire._build_aspire_from_file", "flows.jax.flows:FlowJax.save", "flows.torch.flows:BaseTorchFlow.save", "samples:BaseSamples.from_dict", "samples:Samples.rejection_sample",
             "transforms:CompositeTransform.forward", "transforms:CompositeTransform.inverse"],
     "C17": ["aspire:Aspire.sample_posterior", "samplers.mcmc:Emcee.sample", "samplers.mcmc:MiniPCN.sample", "samplers.base:Sampler.log_likelihood"],
     "C18": ["samplers.smc.emcee:EmceeSMC.mutate", "samplers.smc.minipcn:MiniPCNSMC.mutate", "history:SMCHistory.save"],
